@@ -19,7 +19,8 @@ RULE = ("cases = a generated multi-statement script (one column per line where p
         "SQL keywords, , ( ) ; = % #, whole statements ('create table x (y int);'), each carrying a unique marker word; exhaustive "
         "(style x text x line position) over two base scripts, then seeded random multi-insertion scripts. Indented multi-line block "
         "comments and comments containing another comment marker are generated as separate, single-comment cases (known findings). "
-        "Non-trivial = at least one comment inserted; distinct = distinct commented script.")
+        "Non-trivial = at least one comment inserted; distinct = distinct commented script."
+        " Added after seeded defects: interior and closing lines of block comments that start like ignored lines or comments, '--' inside '--' comments, '#text' / '##text', end-of-input tails (no final ';', no final newline), the comments entry on a second run of the same object.")
 ASSUMPTIONS = ["comment texts contain no quotes and (outside the known-finding class) none of the sequences --, /*, */",
                "no code follows a comment on the same line", "containment of a reported comment item is tested after removing white space (the pre-processor re-spaces , ( ) = inside comment text too)"]
 MIN_EVENTS = {"statements": 100, "run_return": 100}
